@@ -10,7 +10,8 @@ SRCS = None
 DRIVER_PARTS = ["xt_util.ml", "drv_C10.ml"]
 LEVEL = "proof"
 CASE_TIMEOUT = 0.2
-RULE = ("case = layer + capabilities + a history of set-pen / change-pen requests.  Layer X: a real xterm TickitTerm "
+RULE = ("case = layer + capabilities + a history of set-pen / change-pen requests, each with a fresh pen object or with ONE pen object "
+        "reused through the case (attributes set on it, removed with tickit_pen_clear_attr, the object handed to setpen / chpen in between).  Layer X: a real xterm TickitTerm "
         "(colon sub-parameters and RGB probed / forced); the bytes of every request are compared with the model's and "
         "run through the extracted VT, whose SGR state must equal the logical pen (projected through the capabilities) "
         "after every request, with no bytes when the logical pen did not change.  Layer D: term.c above a logging driver "
@@ -101,6 +102,17 @@ def gen(tier, seed, info):
     for colors in (-1, 0, 2, 8, 16, 88, 256, 16777216):
         for p in ("fg=100#102030", "fg=3#102030,bg=9#040506", "fg=-1,bg=-1", pen_str(RICH)):
             yield emit("palette_misc", "D %d s:%s s:%s c:%s s:-" % (colors, p, p, p))
+    # 4b. ONE pen object reused through the case: attributes set on it (p), removed with tickit_pen_clear_attr (k),
+    #     the object handed to setpen / chpen (S / C) in between -- for every attribute and sample value
+    for colon, rgb in ((0, 0), (1, 1)):
+        for a in ATTRS:
+            for v in VALUES[a]:
+                yield emit("reused_pen", "X %d %d p:%s=%s S:- k:%s=0 S:- C:- p:%s=%s C:- k:%s=0 S:-" % (colon, rgb, a, v, a, a, v, a))
+                yield emit("reused_pen", "X %d %d p:%s,%s=%s S:- k:%s=0 S:- s:-" % (colon, rgb, pen_str(NONDEF), a, v, a))
+            yield emit("reused_pen", "X %d %d p:%s S:- k:%s=0 S:- p:%s S:- k:%s=0 C:- S:-" % (colon, rgb, pen_str(RICH), a, pen_str(NONDEF), a))
+    for colors in (8, 16, 256):
+        for a in ATTRS:
+            yield emit("reused_pen", "D %d p:%s S:- k:%s=0 S:- C:- S:-" % (colors, pen_str(RICH), a))
     info["exhaustive"] = True
     info["exhaustive_scope"] = ("xterm layer: all 1024 subsets of the ten attributes x 4 capability combinations (set twice, "
                                 "reset); every ordered pair of sample values per attribute; palette layer: all 256 indices "
@@ -109,7 +121,22 @@ def gen(tier, seed, info):
     n = 5000 if quick else 800000
     for _ in range(n):
         malformed = rnd.random() < 0.05
-        ops = " ".join("%s:%s" % (rnd.choice("sc"), rand_pen(rnd, malformed)) for _ in range(rnd.randint(1, 8)))
+        if rnd.random() < 0.25:
+            # histories over the reused pen object
+            words = []
+            for _ in range(rnd.randint(2, 10)):
+                r = rnd.random()
+                if r < 0.3:
+                    words.append("p:" + rand_pen(rnd, malformed))
+                elif r < 0.5:
+                    words.append("k:" + ",".join("%s=0" % a for a in rnd.sample(ATTRS, rnd.choice([1, 1, 2, 4]))))
+                elif r < 0.85:
+                    words.append(rnd.choice("SSC") + ":-")
+                else:
+                    words.append("%s:%s" % (rnd.choice("sc"), rand_pen(rnd, malformed)))
+            ops = " ".join(words)
+        else:
+            ops = " ".join("%s:%s" % (rnd.choice("sc"), rand_pen(rnd, malformed)) for _ in range(rnd.randint(1, 8)))
         if rnd.random() < 0.6:
             colon, rgb = rnd.choice(caps)
             yield emit("malformed" if malformed else "random_X", "X %d %d %s" % (colon, rgb, ops))
